@@ -385,7 +385,7 @@ struct Runner {
     }
 
     // ---- replay files ----
-    std::string write_replay(const Outcome &o, int size, const std::string &how) {
+    std::string write_replay(const Outcome &o, int size, const std::string &how, const std::vector<std::pair<std::vector<uint64_t>, int>> *history = nullptr) {
         std::string dir = opt.replaydir + "/" + opt.id;
         std::string cmd = "mkdir -p '" + dir + "'"; int rc = system(cmd.c_str()); (void)rc;
         char name[64]; snprintf(name, sizeof name, "%016llx.case", (unsigned long long)fnv1a(o.rec.data(), o.rec.size() * 8));
@@ -398,13 +398,15 @@ struct Runner {
         std::string d = o.desc; for (auto &ch : d) if (ch == '\n') ch = ' ';
         if (d.size() > 3000) d.resize(3000);
         fprintf(f, "desc %s\n", d.c_str());
+        // cases that have to run before the failing one in the same process (all but the last entry of `history`)
+        if (history) for (size_t k = 0; k + 1 < history->size(); k++) { fprintf(f, "before %d", (*history)[k].second); for (uint64_t v : (*history)[k].first) fprintf(f, " %llu", (unsigned long long)v); fprintf(f, "\n"); }
         fprintf(f, "choices");
         for (uint64_t v : o.rec) fprintf(f, " %llu", (unsigned long long)v);
         fprintf(f, "\n");
         fclose(f);
         return path;
     }
-    static bool read_replay(const std::string &path, std::vector<uint64_t> &seq, int &size, std::string &sig) {
+    static bool read_replay(const std::string &path, std::vector<uint64_t> &seq, int &size, std::string &sig, std::vector<std::pair<std::vector<uint64_t>, int>> *before = nullptr) {
         FILE *f = fopen(path.c_str(), "r"); if (!f) return false;
         std::string all; char tmp[65536]; size_t r; while ((r = fread(tmp, 1, sizeof tmp, f)) > 0) all.append(tmp, r);
         fclose(f);
@@ -412,6 +414,7 @@ struct Runner {
         while (std::getline(is, line)) {
             if (line.compare(0, 5, "size ") == 0) size = atoi(line.c_str() + 5);
             else if (line.compare(0, 4, "sig ") == 0) sig = line.substr(4);
+            else if (line.compare(0, 7, "before ") == 0) { std::istringstream ls(line.substr(7)); int sz = 50; ls >> sz; std::vector<uint64_t> b; unsigned long long v; while (ls >> v) b.push_back(v); if (before) before->push_back({b, sz}); }
             else if (line.compare(0, 7, "choices") == 0) {
                 std::istringstream ls(line.substr(7)); unsigned long long v; while (ls >> v) seq.push_back(v); got = true;
             }
@@ -509,8 +512,13 @@ struct Runner {
                 // re-run in isolation to obtain the recorded sequence without trusting in-process state
                 Outcome o = regen_isolated(fi);
                 if (o.rec.empty()) o = pending;
-                o.desc = pending.desc; if (o.kind == Outcome::PASS) { o.kind = Outcome::FAIL; o.sig = pending.sig; o.msg = pending.msg; }
-                stop = handle_failure(o, size_for(fi), "random seed=" + std::to_string(opt.seed) + " case=" + std::to_string(fi));
+                o.desc = pending.desc;
+                if (o.kind == Outcome::PASS) {
+                    // Fails inside the worker but not alone: the cases run earlier in the same process are part of
+                    // the failing input (state leaking between contexts in the code under test).
+                    stop = handle_history_failure(pending, i, fi);
+                } else
+                    stop = handle_failure(o, size_for(fi), "random seed=" + std::to_string(opt.seed) + " case=" + std::to_string(fi));
                 i = at;
             } else if (!(WIFEXITED(status) && WEXITSTATUS(status) == 0) || at < opt.cases) {
                 // worker died inside case `at`
@@ -522,6 +530,41 @@ struct Runner {
             } else i = at;
             if (stop) return;
         }
+    }
+    // Run the random cases `idxs` one after another in ONE fresh child; outcome of the last one.
+    Outcome history_child(const std::vector<uint64_t> &idxs) {
+        return in_child([&]() { Outcome o; for (uint64_t k : idxs) o = exec_random(k, shm); return o; });
+    }
+    Outcome history_child_seqs(const std::vector<std::pair<std::vector<uint64_t>, int>> &seqs) {
+        return in_child([&]() { Outcome o; for (auto &sq : seqs) o = exec_seq(sq.first, sq.second, shm); return o; });
+    }
+    // A failure that needs earlier cases of the same worker process.  first = first case the worker ran.
+    bool handle_history_failure(const Outcome &pending, uint64_t first, uint64_t fi) {
+        auto fails = [&](const std::vector<uint64_t> &h) { Outcome o = history_child(h); return (o.kind == Outcome::FAIL || o.kind == Outcome::CRASH) && o.sig == pending.sig; };
+        std::vector<uint64_t> hist;
+        // shortest suffix of the worker's history that still fails
+        bool found = false;
+        for (uint64_t len : {1, 2, 3, 5, 8, 16, 32, 64, 128, 100000000}) {
+            uint64_t from = fi - first > len ? fi - len : first; hist.clear(); for (uint64_t k = from; k <= fi; k++) hist.push_back(k);
+            if (fails(hist)) { found = true; break; }
+            if (from == first) break;
+        }
+        if (!found) { st.labels["flaky-" + pending.sig]++; fprintf(stderr, "[pbt] %s: failure %s reproduces neither alone nor with its history, ignored\n", opt.id.c_str(), pending.sig.c_str()); return false; }
+        // drop earlier cases one by one (bounded)
+        int budget = 40;
+        for (size_t k = 0; k + 1 < hist.size() && budget > 0;) { std::vector<uint64_t> c2(hist); c2.erase(c2.begin() + k); budget--; if (fails(c2)) hist = c2; else k++; }
+        // materialise the choice sequences
+        std::vector<std::pair<std::vector<uint64_t>, int>> seqs;
+        for (uint64_t k : hist) { Outcome r = regen_isolated(k); seqs.push_back({r.rec, size_for(k)}); }
+        Outcome chk = history_child_seqs(seqs);
+        Outcome rep; rep.kind = Outcome::FAIL; rep.sig = pending.sig + ":history-dependent";
+        rep.msg = pending.msg + " [passes on its own; fails after " + std::to_string(hist.size() - 1) + " earlier case(s) in the same process: state leaks between contexts" + (chk.kind == Outcome::PASS ? "; sequence replay did not reproduce" : "") + "]";
+        rep.desc = pending.desc; rep.rec = seqs.back().first;
+        bool is_known = known.count(rep.sig) > 0 || known.count(pending.sig) > 0;
+        std::string path = write_replay(rep, seqs.back().second, "random seed=" + std::to_string(opt.seed) + " cases " + std::to_string(hist.front()) + ".." + std::to_string(fi), &seqs);
+        st.failures.push_back({rep.sig, rep.msg, path, is_known});
+        if (is_known) { st.known_hits++; return false; }
+        return true;
     }
     // run random case idx in an isolated child only to capture its choice sequence / outcome
     Outcome regen_isolated(uint64_t idx) {
@@ -548,9 +591,11 @@ struct Runner {
     }
 
     int do_replay(const std::string &path) {
-        std::vector<uint64_t> seq; int size = 50; std::string sig;
-        if (!read_replay(path, seq, size, sig)) { fprintf(stderr, "cannot read replay file %s\n", path.c_str()); return 2; }
-        Outcome o = opt.no_fork ? exec_seq(seq, size) : isolated(seq, size);
+        std::vector<uint64_t> seq; int size = 50; std::string sig; std::vector<std::pair<std::vector<uint64_t>, int>> before;
+        if (!read_replay(path, seq, size, sig, &before)) { fprintf(stderr, "cannot read replay file %s\n", path.c_str()); return 2; }
+        Outcome o;
+        if (!before.empty()) { before.push_back({seq, size}); if (opt.no_fork) { for (auto &sq : before) o = exec_seq(sq.first, sq.second); } else o = history_child_seqs(before); if (o.kind == Outcome::FAIL && sig.find(":history-dependent") != std::string::npos && o.sig.find(":history-dependent") == std::string::npos) o.sig += ":history-dependent"; }
+        else o = opt.no_fork ? exec_seq(seq, size) : isolated(seq, size);
         account(o);
         if (o.kind == Outcome::PASS || o.kind == Outcome::DISCARD) { printf("REPLAY-PASS property=%s file=%s\n", opt.id.c_str(), path.c_str()); return 0; }
         bool is_known = known.count(o.sig) > 0;
